@@ -543,6 +543,20 @@ def replay(check_id, obl, failed_prop):
            "inputs": vals}
     json.dump(rec, open(path, "w"), indent=1)
     out = replay_file(path)
+    if not out.get("confirmed") and "ran clean" in out.get("how", "") and obl.pipeline == "dfcc":
+        # DFCC replaces recursive callees by their contracts, so values *returned* by those callees are unconstrained in the model and
+        # do not appear among the harness inputs. Concretisation search: re-run the real code with the don't-care inputs (zeros in the
+        # trace) set to other values; a native failure on any of them is a genuine failure of the real code on that input.
+        for label, f in (("zeros->1", lambda v: 1 if v == 0 else v), ("zeros->3", lambda v: 3 if v == 0 else v), ("all->1", lambda v: 1)):
+            rec2 = dict(rec, inputs=[f(v) for v in vals])
+            json.dump(rec2, open(path, "w"), indent=1)
+            out2 = replay_file(path)
+            if out2.get("confirmed"):
+                out2["how"] = out2.get("how", "") + " [inputs concretised: %s]" % label
+                out, rec = out2, rec2
+                break
+        else:
+            json.dump(rec, open(path, "w"), indent=1)
     info.update(out)
     rec["native"] = out
     json.dump(rec, open(path, "w"), indent=1)
